@@ -81,6 +81,9 @@ type Config struct {
 	// RealTimeouts keeps the repository default phase timeouts (C15 runs a virtual clock over them); otherwise the
 	// commit timeout is zeroed (C01 never looks at durations)
 	RealTimeouts bool
+	// LastRootHeightUpdated is what Controller.LoadCommitteeData answers (the root height of the committee\'s last update):
+	// legal values are <= the root height; a lock certificate older than it is stale
+	LastRootHeightUpdated uint64
 }
 
 type Sim struct {
@@ -171,7 +174,7 @@ func New(cfg Config) *Sim {
 		if e != nil {
 			panic(e)
 		}
-		b.ValidatorSet, b.CommitteeData = vs, &lib.CommitteeData{}
+		b.ValidatorSet, b.CommitteeData = vs, &lib.CommitteeData{LastRootHeightUpdated: cfg.LastRootHeightUpdated}
 		b.Phase = bft.Election // lib.Phase has UNKNOWN = 0
 		n.B = b
 		s.Nodes = append(s.Nodes, n)
@@ -392,7 +395,7 @@ func (n *Node) SendCertificateResultsTx(*lib.QuorumCertificate) {}
 // LoadCommittee: the committee-preserving root chain of the property — the same set at every root height.
 func (n *Node) LoadCommittee(_, _ uint64) (lib.ValidatorSet, lib.ErrorI) { return n.sim.ValSet, nil }
 func (n *Node) LoadCommitteeData() (*lib.CommitteeData, lib.ErrorI) {
-	return &lib.CommitteeData{}, nil
+	return &lib.CommitteeData{LastRootHeightUpdated: n.sim.Cfg.LastRootHeightUpdated}, nil
 }
 func (n *Node) LoadLastProposers(uint64) (*lib.Proposers, lib.ErrorI) { return n.sim.props, nil }
 func (n *Node) LoadMinimumEvidenceHeight(_, _ uint64) (*uint64, lib.ErrorI) {
